@@ -6,7 +6,7 @@ PROP = "C19"
 HARNESS = "pb"
 COMPONENT = "pb"
 WRAPS = ("realloc", "vasprintf")      # harness/pb.c: `sproom` makes them fail during one sprintbuf call
-TIE = ["TranslatedPb"]      # Lemmas/TranslatedPb.lean: Model/Printbuf.lean = printbuf.c as translated by tools/extract/c2lean.py
+TIE = ["TranslatedPb", "TranslatedCtor"]      # Lemmas/TranslatedPb.lean: Model/Printbuf.lean = printbuf.c as translated by tools/extract/c2lean.py
 VARIANT = "asan"
 INT_MAX = 2147483647
 RULE = ("histories of printbuf ops (append / claimed-size append / memappend_fast macro / memset / sprintbuf / reset) "
